@@ -2,39 +2,40 @@
 
    Only theorem statements, each closed by [exact] and followed by Print
    Assumptions.  The model of libks/arena.c is Arena/ArenaDefs.v ([step], tied to
-   the implementation by the correspondence check, constants from
-   RobsdGen.Gen_Arena); the client-side bookkeeping of live blocks ([ghost],
-   [gstep]), the API discipline ([api_okb]: strictly LIFO scope leaves, realloc
-   with a live block and its true size, client writes inside live user blocks,
-   nothing but leaves after arena_free) and [reach] are in Arena/ArenaSpec.v.
+   the implementation by the correspondence check; constants and the switch
+   [shrink_validated] from RobsdGen.Gen_Arena); the client-side bookkeeping of live
+   blocks ([ghost], [gstep]) and the oracle are in Arena/ArenaSpec.v.
 
-   Quantifiers: every configuration [c] with [wf_cfg c] (instantiated below for
-   the normal and the ASan build and the page sizes 4, 8, 16 and 64 KiB), every
-   state [reach]able from arena_alloc by ANY sequence of API-respecting
-   operations - enter, leave, malloc, calloc, realloc, strndup, strdup, sprintf,
-   cleanup, client writes and reads, arena_free - with ANY sizes below 2^64;
-   no bound on the length of the sequence, the nesting depth or the number of
-   frames.  Two arenas: [reach2].
+   QUANTIFIER.  Every configuration [c] with [wf_cfg c] (instantiated for the normal
+   and the ASan build and the page sizes 4, 8, 16 and 64 KiB); no bound on the
+   length of the sequence, the nesting depth, the number of frames or the sizes
+   (below 2^64).  Three sets of states appear, from wide to narrow:
+   * [reach_any]: arena_alloc followed by ANY calls that return - used for clause 1
+     (alignment), which therefore holds for the property's quantifier as stated;
+   * [reach_full] = [reach] (C19_reach_full_is_reach): arena_alloc followed by a
+     WELL-BRACKETED sequence of calls (scopes are left innermost first - named
+     guard [lifo_okb], what the arena_scope() macro enforces; a leave of an
+     enclosing scope ends the scopes nested in it, and C19 speaks of nested scopes)
+     that respects [client_okb]: open scope, arena not freed, realloc names a live
+     user block with its true size, client writes stay inside live user blocks.
+     C19_reach_is_well_bracketed_runs says exactly this.
+   Outside the guard, stated as observations of what the code does:
+   C19_nonlifo_leave_overlaps_live_block, C19_nonlifo_leave_hits_header
+   (findings/C19_nonlifo_leave.md).
 
-   What the code does at the edges, stated exactly:
-   * shrinking with arena_realloc (new <= old) returns the same pointer without
-     consulting the scope at all ([C19_shrink_is_silent]).  Shrinking a block of
-     an INNER scope through an OUTER scope is therefore not detected, and the
-     result dies with the inner scope although the caller named the outer one:
-     [C19_outer_shrink_undetected].  Such a call is outside [api_okb] (reported as
-     a finding; growing through an outer scope traps).
-   * arena_scope_leave sets the bump pointer to 0 when the scope's mark lies above
-     it.  Under LIFO use this branch is dead ([C19_leave_frees_only_own], reset =
-     false); with a non-LIFO leave it hands out the frame header
-     ([C19_nonlifo_leave_hits_header]).
-   * after arena_free with scopes still open only leaves are within the API. *)
+   REPAIRED.  Shrinking a block of an inner scope through an outer scope was silent
+   until 4eb1227 ([c_sv] = false): C19_outer_use_dichotomy says this was the only hole
+   in the detection clause, C19_outer_shrink_damage what it cost in every reachable
+   state.  With the source as it is now the clause holds at full strength
+   (C19_outer_alloc_detected, pinned by C19_shrink_validated_now). *)
 From Robsd Require Import Arena.ArenaDefs Arena.ArenaSpec Arena.ArenaProofs Arena.ArenaInv Arena.ArenaThms
-  Arena.ArenaOracle.
+  Arena.ArenaHoles Arena.ArenaAny Arena.ArenaLive Arena.ArenaClients Arena.ArenaOracle.
 From RobsdGen Require Import Gen_Arena.
 From Coq Require Import List NArith Permutation.
 Import ListNotations.
 Local Open Scope N_scope.
 
+(* ---- configurations ------------------------------------------------------------------------------ *)
 (* the two builds satisfy the hypotheses of everything below: in general ... *)
 Theorem C19_cfg_wf : forall gap ps,
   gap = poison_normal \/ gap = poison_asan ->
@@ -49,23 +50,43 @@ Theorem C19_cfg_wf_builds :
 Proof. exact cfg_wf_builds. Qed.
 Print Assumptions C19_cfg_wf_builds.
 
-(* every live block, hence everything the arena ever returned and is still live, is maxalign-aligned ... *)
+(* non-vacuity of every "reach" below: arena_alloc succeeds and its result is reachable *)
+Theorem C19_init_exists : forall c, wf_cfg c -> exists st, init c = Some st /\ reach c st ghost0.
+Proof. exact init_reach. Qed.
+Print Assumptions C19_init_exists.
+
+(* what "reach c st g" means: the LIFO guard and the rest of the API, by name *)
+Theorem C19_reach_is_well_bracketed_runs : forall c st g,
+  reach c st g <->
+  exists st0 ops evs, init c = Some st0 /\ well_bracketed ops /\ client_steps c st0 ghost0 ops evs st g.
+Proof. exact reach_iff_runs. Qed.
+Print Assumptions C19_reach_is_well_bracketed_runs.
+
+Theorem C19_api_is_lifo_and_client : forall g o,
+  api_okb g o = true <-> lifo_okb o = true /\ client_okb g o = true.
+Proof. exact api_okb_parts. Qed.
+Print Assumptions C19_api_is_lifo_and_client.
+
+(* ---- clause 1: pointer-aligned --------------------------------------------------------------------- *)
+(* for ALL sequences of calls, API-respecting or not: whatever happened before, a pointer that
+   any operation returns is maxalign-aligned (relative to its frame; frame bases are malloc's) *)
+Theorem C19_returned_aligned_all_sequences : forall c, wf_cfg c -> forall st o st' p,
+  reach_any c st -> step c st o = Ok (st', EPtr (Some p)) -> snd p mod c_ma c = 0.
+Proof. exact returned_aligned_any. Qed.
+Print Assumptions C19_returned_aligned_all_sequences.
+
+(* every live block is maxalign-aligned ... *)
 Theorem C19_aligned : forall c, wf_cfg c -> forall st g b,
   reach c st g -> In b (g_blocks g) -> b_off b mod c_ma c = 0.
 Proof. exact live_aligned. Qed.
 Print Assumptions C19_aligned.
 
-(* ... every pointer returned is, at the moment it is returned ... *)
-Theorem C19_returned_aligned : forall c, wf_cfg c -> forall st g o st' p,
-  reach c st g -> api_okb g o = true -> step c st o = Ok (st', EPtr (Some p)) -> snd p mod c_ma c = 0.
-Proof. exact returned_aligned. Qed.
-Print Assumptions C19_returned_aligned.
+(* ... and maxalign, as arena.c has it, is a multiple of the platform's pointer size *)
+Theorem C19_maxalign_is_pointer_size : forall x, x mod maxalign = 0 -> x mod pointer_size = 0.
+Proof. exact maxalign_pointer. Qed.
+Print Assumptions C19_maxalign_is_pointer_size.
 
-(* ... and maxalign is the pointer size of the platform (frame bases come from malloc) *)
-Theorem C19_pointer_aligned : forall x gap ps, x mod c_ma (cfg_of gap ps) = 0 -> x mod pointer_size = 0.
-Proof. exact maxalign_is_pointer_size. Qed.
-Print Assumptions C19_pointer_aligned.
-
+(* ---- clause 2: disjoint ------------------------------------------------------------------------------ *)
 (* live blocks lie in an existing frame, behind its header, below its bump pointer *)
 Theorem C19_inside_frame : forall c, wf_cfg c -> forall st g b,
   reach c st g -> In b (g_blocks g) ->
@@ -80,31 +101,36 @@ Theorem C19_disjoint : forall c, wf_cfg c -> forall st g,
 Proof. exact live_disjoint. Qed.
 Print Assumptions C19_disjoint.
 
-(* no operation changes a byte of a block that is live before it, except the
-   client's own write into that block: the arena's writes (calloc zeroing, string
-   copies, realloc copies, cleanup nodes, the indeterminate bytes of fresh memory)
-   land in fresh memory only *)
+(* ---- clause 3: contents, until the scope is left --------------------------------------------------------- *)
+(* no operation changes a byte of a block that is live before it, except the client's own write
+   into that block: the arena's writes (calloc zeroing, string copies, realloc copies, cleanup
+   nodes, the indeterminate bytes of fresh memory) land in fresh memory only *)
 Theorem C19_contents_stable : forall c, wf_cfg c -> forall st g o st' ev b,
   reach c st g -> api_okb g o = true -> step c st o = Ok (st', ev) ->
   In b (g_blocks g) -> fill_misses o b -> agree (a_mem (st_a st)) (a_mem (st_a st')) b.
 Proof. exact contents_stable. Qed.
 Print Assumptions C19_contents_stable.
 
-(* a client write into one live block misses every block disjoint from it *)
-Theorem C19_write_hits_one_block : forall c st g p n v u b,
-  reach c st g -> In u (g_blocks g) -> In b (g_blocks g) -> in_block u p n = true ->
-  disjoint u b -> fill_misses (Fill p n v) b.
-Proof. exact fill_hits_one_block. Qed.
-Print Assumptions C19_write_hits_one_block.
+(* the client's own write into one live block changes no other live block *)
+Theorem C19_client_write_touches_only_its_block : forall c, wf_cfg c -> forall st g p n v st' ev u b,
+  reach c st g -> api_okb g (Fill p n v) = true -> step c st (Fill p n v) = Ok (st', ev) ->
+  In u (g_blocks g) -> in_block u p n = true -> In b (g_blocks g) -> b <> u ->
+  agree (a_mem (st_a st)) (a_mem (st_a st')) b.
+Proof. exact client_write_only_own. Qed.
+Print Assumptions C19_client_write_touches_only_its_block.
 
-(* over a whole continuation: as long as the block stays live (its scope is not
-   left, it is not reallocated) and is not written by the client, it keeps its bytes *)
-Theorem C19_contents_stable_trace : forall c, wf_cfg c -> forall b st g ops st2 g2,
-  reach c st g -> steps_keeping c b st g ops st2 g2 ->
+(* "until the scope it was allocated in is left", as a conclusion: over any API-respecting
+   continuation in which no scope at or outside the block's own level is left ([outlives]: every
+   LeaveAt k has b_lvl b < lvl_of g k, i.e. the nesting depth stays >= b_lvl b), the block is not
+   handed to realloc and the client does not write into it, the block STAYS LIVE and keeps its
+   bytes.  Liveness is derived from the scope structure; it is not a premise of the steps. *)
+Theorem C19_contents_until_scope_left : forall c, wf_cfg c -> forall b st g ops st2 g2,
+  reach c st g -> In b (g_blocks g) -> steps_while c b st g ops st2 g2 ->
   agree (a_mem (st_a st)) (a_mem (st_a st2)) b /\ In b (g_blocks g2) /\ reach c st2 g2.
-Proof. exact stable_while_live. Qed.
-Print Assumptions C19_contents_stable_trace.
+Proof. exact stable_until_scope_left. Qed.
+Print Assumptions C19_contents_until_scope_left.
 
+(* ---- realloc ------------------------------------------------------------------------------------------------ *)
 (* realloc keeps the common prefix, in place or moved *)
 Theorem C19_realloc_prefix : forall c, wf_cfg c -> forall st g k p old new st' q,
   reach c st g -> api_okb g (Realloc k (Some p) old new) = true ->
@@ -114,10 +140,11 @@ Theorem C19_realloc_prefix : forall c, wf_cfg c -> forall st g k p old new st' q
 Proof. exact realloc_prefix. Qed.
 Print Assumptions C19_realloc_prefix.
 
-(* leaving the innermost scope: the "len = 0" branch is not taken, memory is not
-   written, exactly the blocks of outer scopes stay live (and, by C19_inside_frame
-   and C19_disjoint for the successor state, stay inside their frames), and the
-   cleanups that run are exactly the ones registered through this scope, newest first *)
+(* ---- leaving a scope ------------------------------------------------------------------------------------------ *)
+(* leaving the innermost scope: the "len = 0" branch is not taken, memory is not written, exactly
+   the blocks of outer scopes stay live (and, by C19_inside_frame and C19_disjoint for the
+   successor state, stay inside their frames), and the cleanups that run are exactly the ones
+   registered through this scope, newest first *)
 Theorem C19_leave_frees_only_own : forall c, wf_cfg c -> forall st g st' toks reset,
   reach c st g -> api_okb g (LeaveAt 0) = true -> step c st (LeaveAt 0) = Ok (st', ELeave toks reset) ->
   reset = false /\ toks = hd [] (g_scopes g) /\
@@ -129,45 +156,179 @@ Theorem C19_leave_frees_only_own : forall c, wf_cfg c -> forall st g st' toks re
 Proof. exact leave_spec. Qed.
 Print Assumptions C19_leave_frees_only_own.
 
-(* over a whole continuation: the cleanups that ran plus the ones still pending in
-   open scopes are the ones registered plus the ones pending before - so from
-   arena_alloc to the point where every scope is closed each registered cleanup
-   ran exactly once *)
+(* ---- cleanups exactly once ---------------------------------------------------------------------------------------- *)
+(* over any continuation: what ran plus what is pending in open scopes = what was registered
+   plus what was pending before *)
 Theorem C19_cleanups_once : forall c, wf_cfg c -> forall st g ops evs st2 g2,
   reach c st g -> steps c st g ops evs st2 g2 ->
   Permutation (ran evs ++ concat (g_scopes g2)) (registered ops ++ concat (g_scopes g)).
 Proof. exact cleanups_accounted. Qed.
 Print Assumptions C19_cleanups_once.
 
-(* any allocation, cleanup registration or growing reallocation through a scope
-   that is not the innermost one traps *)
+(* closed form: from arena_alloc to any point where every scope has been left, the cleanups
+   that ran are a permutation of the ones registered - each exactly once *)
+Theorem C19_cleanups_all_ran : forall c, wf_cfg c -> forall st ops evs st2 g2,
+  init c = Some st -> steps c st ghost0 ops evs st2 g2 -> g_scopes g2 = [] ->
+  Permutation (ran evs) (registered ops).
+Proof. exact cleanups_all_ran. Qed.
+Print Assumptions C19_cleanups_all_ran.
+
+(* and in ANY API-respecting run, also one that ends in a trap or an exit, no cleanup runs
+   more often than it was registered *)
+Theorem C19_cleanups_at_most_once : forall c, wf_cfg c -> forall st ops evs e fin,
+  init c = Some st -> api_run c st ghost0 ops -> run c st ops = (evs, e, fin) ->
+  forall t, (count_occ N.eq_dec (ran evs) t <= count_occ N.eq_dec (registered ops) t)%nat.
+Proof. exact cleanups_at_most_once. Qed.
+Print Assumptions C19_cleanups_at_most_once.
+
+(* ---- allocating from an outer scope is detected ---------------------------------------------------------------------- *)
+(* the source as it is now validates the scope on the shrinking path too; should 4eb1227 be
+   reverted the translator flips [shrink_validated] and this proof no longer checks *)
+Theorem C19_shrink_validated_now : forall gap ps, c_sv (cfg_of gap ps) = true.
+Proof. exact (fun _ _ => eq_refl). Qed.
+Print Assumptions C19_shrink_validated_now.
+
+(* FULL STRENGTH: any allocation, cleanup registration or reallocation (growing or shrinking, of
+   ANY live block named with its true size - [api_full], no restriction on the level of the
+   block) through a scope that is not the innermost one traps *)
 Theorem C19_outer_alloc_detected : forall c, wf_cfg c -> forall st g o,
-  reach c st g -> api_okb g o = true -> must_trap o = true -> step c st o = Trap.
-Proof. exact outer_use_traps. Qed.
+  c_sv c = true -> reach c st g -> api_full g o = true -> must_trap c o = true -> step c st o = Trap.
+Proof. exact outer_use_traps_full. Qed.
 Print Assumptions C19_outer_alloc_detected.
 
-(* and everything else within the API neither traps nor crashes; err/errx only
-   for requests above 2^63 bytes *)
+(* and everything else within the API neither traps nor crashes; err/errx only for requests
+   above 2^63 bytes; the call then is within [api_okb], so all theorems above apply to it *)
 Theorem C19_inner_use_never_traps : forall c, wf_cfg c -> forall st g o,
-  reach c st g -> api_okb g o = true -> must_trap o = false ->
-  (exists st' ev, step c st o = Ok (st', ev)) \/ (step c st o = Exit1 /\ may_exit c o = true).
-Proof. exact inner_use_ok. Qed.
+  c_sv c = true -> reach c st g -> api_full g o = true -> must_trap c o = false ->
+  (exists st' ev, step c st o = Ok (st', ev) /\ api_okb g o = true) \/
+  (step c st o = Exit1 /\ may_exit c o = true).
+Proof. exact inner_use_ok_full. Qed.
 Print Assumptions C19_inner_use_never_traps.
 
-(* what the code does for a shrinking realloc: nothing, whatever the scope *)
-Theorem C19_shrink_is_silent : forall c st k s p old new,
-  nth_error (st_scs st) k = Some s -> a_refs (st_a st) <> 0 -> new <= old ->
-  N.land (snd p) (c_ma c - 1) = 0 ->
-  step c st (Realloc k (Some p) old new) = Ok (st, EPtr (Some p)).
-Proof. exact realloc_shrink_in_place. Qed.
-Print Assumptions C19_shrink_is_silent.
+(* so closing [reach] under [api_okb] only loses nothing *)
+Theorem C19_reach_full_is_reach : forall c, wf_cfg c -> forall st g,
+  c_sv c = true -> reach_full c st g -> reach c st g.
+Proof. exact reach_full_reach. Qed.
+Print Assumptions C19_reach_full_is_reach.
 
-(* two arenas: each evolves as a single arena, so all of the above holds for both *)
-Theorem C19_two_arenas : forall c sts gs,
+(* the same two statements for any source ([c_sv] true or false) under the narrower [api_okb] *)
+Theorem C19_outer_alloc_detected_partial : forall c, wf_cfg c -> forall st g o,
+  reach c st g -> api_okb g o = true -> must_trap c o = true -> step c st o = Trap.
+Proof. exact outer_use_traps. Qed.
+Print Assumptions C19_outer_alloc_detected_partial.
+
+(* what could ever escape arena_scope_validate, for ANY pointer and sizes (no API hypothesis on
+   them): only arena_realloc - returning NULL for a misaligned pointer, or returning the pointer
+   itself for new <= old on a source that does not validate the shrinking path *)
+Theorem C19_outer_use_dichotomy : forall c, wf_cfg c -> forall st g o k st' ev,
+  reach c st g -> g_freed g = false -> (0 < k)%nat -> scope_of o = Some k ->
+  step c st o = Ok (st', ev) ->
+  exists p old new, o = Realloc k (Some p) old new /\ st' = st /\
+    (ev = EPtr None \/ (ev = EPtr (Some p) /\ new <= old /\ c_sv c = false)).
+Proof. exact outer_use_dichotomy. Qed.
+Print Assumptions C19_outer_use_dichotomy.
+
+(* REFUTED for a source without the validation (the state before 4eb1227; what reverting it
+   costs): in EVERY reachable state with a scope open - enter, allocate m bytes, shrink the block
+   through the enclosing scope, leave, allocate n <= m bytes: no trap, and the last pointer is the
+   shrunk block itself (or that block's frame has been freed).  By the client's bookkeeping both
+   blocks are live, obtained through the same, still open, scope. *)
+Theorem C19_outer_shrink_damage : forall c, wf_cfg c -> forall st g m new n,
+  c_sv c = false -> reach c st g -> g_freed g = false -> (1 <= depth g)%nat ->
+  0 < new <= m -> 0 < n <= m -> m + c_hdr c + c_gap c <= HALF_LIMIT ->
+  exists p q fin,
+    let ops := [Enter; Malloc 0 m; Realloc 1 (Some p) m new; LeaveAt 0; Malloc 0 n] in
+    let evs := [EUnit; EPtr (Some p); EPtr (Some p); ELeave [] false; EPtr (Some q)] in
+    run c st ops = (evs, Done, fin) /\
+    (q = p \/ (length (a_frames (st_a fin)) <= fst p)%nat) /\
+    depth (gsteps c g ops evs) = depth g /\
+    In (mkB p new (depth g) false) (g_blocks (gsteps c g ops evs)) /\
+    In (mkB q n (depth g) false) (g_blocks (gsteps c g ops evs)).
+Proof. exact outer_shrink_reuse. Qed.
+Print Assumptions C19_outer_shrink_damage.
+
+(* ---- outside the LIFO guard: what the code does (observations, not part of the property) ------------------------------- *)
+(* arena_scope_leave validates nothing.  In EVERY reachable state: enter A, enter B, allocate m
+   bytes in B, leave A (B still open), enter C, allocate n <= m bytes in C - no trap, and the
+   block of B is handed out again (or its frame has been freed); B is still among the scopes
+   the client holds. *)
+Theorem C19_nonlifo_leave_overlaps_live_block : forall c, wf_cfg c -> forall st g m n,
+  reach c st g -> g_freed g = false -> 0 < n <= m -> m + c_hdr c + c_gap c <= HALF_LIMIT ->
+  exists p q fin,
+    run c st [Enter; Enter; Malloc 0 m; LeaveAt 1; Enter; Malloc 0 n] =
+      ([EUnit; EUnit; EPtr (Some p); ELeave [] false; EUnit; EPtr (Some q)], Done, fin) /\
+    (q = p \/ (length (a_frames (st_a fin)) <= fst p)%nat) /\
+    length (st_scs fin) = (2 + length (st_scs st))%nat.
+Proof. exact nonlifo_leave_reuse. Qed.
+Print Assumptions C19_nonlifo_leave_overlaps_live_block.
+
+(* leaving the nested scope after its enclosing scope takes the "len = 0" branch of
+   arena_scope_leave, and the next block is struct arena_frame itself (offset 0), in both
+   builds and for every page size in use ([hits_header], ArenaHoles.v: the run
+   E; M 16; E; M 16; L 1; L 0; E; M 16 ends Done with the last pointer at offset 0) *)
+Theorem C19_nonlifo_leave_hits_header :
+  Forall (fun ps => hits_header (cfg_of poison_normal ps) = true /\ hits_header (cfg_of poison_asan ps) = true)
+         [4096; 8192; 16384; 65536].
+Proof. exact hits_header_builds. Qed.
+Print Assumptions C19_nonlifo_leave_hits_header.
+
+(* ---- one or two arenas ------------------------------------------------------------------------------------------------------ *)
+(* two arenas are modelled as two single arenas with separate memories, so each evolves as a
+   single arena and everything above holds for both.  That operations on one do not touch the
+   other is NOT proved here: it is the modelling assumption "distinct malloc chunks never share
+   addresses" (trusted base), checked against the implementation by the two-arena runs of the
+   correspondence harness. *)
+Theorem C19_two_arenas_are_two_single_arenas : forall c sts gs,
   reach2 c sts gs -> reach c (fst sts) (fst gs) /\ reach c (snd sts) (snd gs).
 Proof. exact reach2_proj. Qed.
-Print Assumptions C19_two_arenas.
+Print Assumptions C19_two_arenas_are_two_single_arenas.
 
+(* ---- arena-backed buffers and vectors (the calls buffer.c / vector.c issue) --------------------------------------------------- *)
+(* buffer_reserve on a buffer whose storage is a live user block of bf_siz bytes: the call is
+   inside the API, and it must trap exactly when the scope is not the innermost one *)
+Theorem C19_buffer_growth_respects_api : forall c g k bf len o,
+  scope_okb g k = true -> buf_ok g bf -> buf_reserve k bf len = Some (Some o) ->
+  api_okb g o = true /\ must_trap c o = Nat.ltb 0 k.
+Proof. exact buf_reserve_api. Qed.
+Print Assumptions C19_buffer_growth_respects_api.
+
+Theorem C19_buffer_outer_growth_traps : forall c, wf_cfg c -> forall st g k bf len o,
+  reach c st g -> scope_okb g k = true -> (0 < k)%nat -> buf_ok g bf ->
+  buf_reserve k bf len = Some (Some o) -> step c st o = Trap.
+Proof. exact buf_outer_growth_traps. Qed.
+Print Assumptions C19_buffer_outer_growth_traps.
+
+Theorem C19_buffer_inner_growth : forall c, wf_cfg c -> forall st g bf len o,
+  reach c st g -> scope_okb g 0 = true -> buf_ok g bf -> buf_reserve 0 bf len = Some (Some o) ->
+  (exists st' q newsiz, step c st o = Ok (st', EPtr (Some q)) /\ o = Realloc 0 (bf_ptr bf) (bf_siz bf) newsiz /\
+       reach c st' (gstep c g o (EPtr (Some q))) /\
+       buf_ok (gstep c g o (EPtr (Some q))) (mkBuf (Some q) newsiz (bf_len bf))) \/
+  (step c st o = Exit1 /\ may_exit c o = true).
+Proof. exact buf_inner_growth. Qed.
+Print Assumptions C19_buffer_inner_growth.
+
+(* vector_reserve1 on a FULL vector (len = capacity: every vector_alloc, and arena_vector_init) *)
+Theorem C19_vector_full_growth_respects_api : forall c vhdr g k v n o,
+  scope_okb g k = true -> vec_ok vhdr g v -> v_len v = v_siz v -> vec_reserve vhdr k v n = Some (Some o) ->
+  api_okb g o = true /\ must_trap c o = Nat.ltb 0 k.
+Proof. exact vec_reserve_api. Qed.
+Print Assumptions C19_vector_full_growth_respects_api.
+
+Theorem C19_vector_outer_growth_traps : forall c, wf_cfg c -> forall vhdr st g k v n o,
+  reach c st g -> scope_okb g k = true -> (0 < k)%nat -> vec_ok vhdr g v -> v_len v = v_siz v ->
+  vec_reserve vhdr k v n = Some (Some o) -> step c st o = Trap.
+Proof. exact vec_outer_growth_traps. Qed.
+Print Assumptions C19_vector_outer_growth_traps.
+
+(* REFUTED for a vector with room left but not enough (vector_reserve(vv, n), len < capacity):
+   it names sizeof(struct vector) + len * stride, less than its block's size - outside [api_okb];
+   that the arena copes is observed by the harness, not proved *)
+Theorem C19_vector_partial_reserve_outside_api :
+  exists g v o, vec_ok 48 g v /\ scope_okb g 0 = true /\ vec_reserve 48 0 v 20 = Some (Some o) /\ api_okb g o = false.
+Proof. exact vec_reserve_underreports. Qed.
+Print Assumptions C19_vector_partial_reserve_outside_api.
+
+(* ---- 64-bit arithmetic ---------------------------------------------------------------------------------------------------------- *)
 (* the uint64_t arithmetic of align_address (addr + maxalign - 1, + poison_size) never
    wraps on the offsets the arena computes; its hypotheses hold for both builds *)
 Theorem C19_no_u64_wrap : forall c st g fr x,
@@ -185,69 +346,61 @@ Theorem C19_no_u64_wrap_builds :
 Proof. exact no_wrap_hyps_builds. Qed.
 Print Assumptions C19_no_u64_wrap_builds.
 
-(* the oracle applied to the implementation (spec_check) demands of every returned
-   block exactly what C19_aligned, C19_inside_frame and C19_disjoint state *)
-Theorem C19_oracle_block_check : forall c others b fsize,
-  check_new_block c others b fsize = 0 <->
-  (b_off b mod c_ma c = 0 /\ c_hdr c <= b_off b /\ b_end b <= fsize /\ Forall (disjoint b) others).
-Proof. exact check_new_block_spec. Qed.
-Print Assumptions C19_oracle_block_check.
+(* ---- the oracle applied to the implementation is tied to the theorems ---------------------------------------------------------------- *)
+(* the two content observations of the oracle are COMPUTED from the model's states (every block
+   live before the step that the client did not write has the same bytes afterwards; the common
+   prefix of a reallocated block is at the new place what it was at the old one), and they hold *)
+Theorem C19_oracle_content_observations_hold : forall c, wf_cfg c -> forall st g o st' ev,
+  reach c st g -> api_okb g o = true -> step c st o = Ok (st', ev) ->
+  o_intact (obs_of g o st st' ev) = true /\ o_prefix (obs_of g o st st' ev) = true.
+Proof. exact obs_content_hold. Qed.
+Print Assumptions C19_oracle_content_observations_hold.
 
-(* the whole oracle never objects to the model: for EVERY program (API-respecting or
-   not, any handles), the trace the model produces from arena_alloc passes every check
-   of spec_check up to the point where the program leaves the API (code
-   R_OUTSIDE_API) or names a pointer no operation returned (R_BAD_HANDLE).  Hence an
-   oracle failure on the implementation is a violation of C19 or a difference between
-   model and implementation - never an artefact of the oracle. *)
+(* the whole oracle never objects to the model: for EVERY program (API-respecting or not, any
+   handles), the trace the model produces from arena_alloc passes every check of spec_check up to
+   the point where the program leaves the API (R_OUTSIDE_API) or names a pointer no operation
+   returned (R_BAD_HANDLE).  Hence an oracle failure on the implementation is a violation of C19
+   or a difference between model and implementation - never an artefact of the oracle. *)
 Theorem C19_oracle_accepts_model : forall c, wf_cfg c -> forall st ops,
-  init c = Some st ->
-  let '(tr, last, e) := mtrace c st [] ops in
+  c_sv c = true -> init c = Some st ->
+  let '(tr, last, e) := mtrace c st ghost0 [] ops in
   match spec_check c tr last e with
   | None => True
   | Some (_, code) => code = R_OUTSIDE_API \/ code = R_BAD_HANDLE
   end.
-Proof. exact model_passes_oracle. Qed.
+Proof. exact model_passes_oracle_validated. Qed.
 Print Assumptions C19_oracle_accepts_model.
 
-(* ... and that trace is the run the correspondence driver prints *)
-Theorem C19_driver_run_is_model_trace : forall c ops st tbl,
-  map fst (fst (hrun c st tbl ops)) = map (fun x => o_ev (snd x)) (fst (fst (mtrace c st tbl ops))) /\
-  snd (hrun c st tbl ops) = snd (mtrace c st tbl ops).
+(* for a source without the shrink validation the only further verdict is R_OUTER_SHRINK - the
+   oracle then objects to the model itself, rightly (C19_outer_shrink_damage) *)
+Theorem C19_oracle_verdicts_any_source : forall c, wf_cfg c -> forall st ops,
+  init c = Some st ->
+  let '(tr, last, e) := mtrace c st ghost0 [] ops in acceptable c (spec_check c tr last e).
+Proof. exact model_passes_oracle. Qed.
+Print Assumptions C19_oracle_verdicts_any_source.
+
+(* bookkeeping: the events and the ending of that trace are the ones the correspondence driver
+   prints (hrun) *)
+Theorem C19_driver_run_is_model_trace : forall c ops st g tbl,
+  map fst (fst (hrun c st tbl ops)) = map (fun x => o_ev (snd x)) (fst (fst (mtrace c st g tbl ops))) /\
+  snd (hrun c st tbl ops) = snd (mtrace c st g tbl ops).
 Proof. exact hrun_mtrace. Qed.
 Print Assumptions C19_driver_run_is_model_trace.
 
-(* ---- witnesses ------------------------------------------------------------------------------- *)
-Definition run_from_alloc (c : cfg) (ops : list op) : option (list event * ending) :=
-  match init c with Some st => Some (fst (run c st ops)) | None => None end.
-
-(* REFUTED for calls outside the API: a block of the inner scope shrunk through the
-   outer scope is not detected, and after the inner scope left the same bytes are
-   handed out again although the caller holds the block through the outer scope *)
-Theorem C19_outer_shrink_undetected : exists ops,
-  run_from_alloc (cfg_of poison_normal 4096) ops =
-    Some ([EUnit; EUnit; EPtr (Some (O, 32)); EPtr (Some (O, 32)); ELeave [] false; EPtr (Some (O, 32))], Done).
-Proof.
-  exact (ex_intro _ [Enter; Enter; Malloc 0 16; Realloc 1 (Some (O, 32)) 16 8; LeaveAt 0; Malloc 0 16] eq_refl).
-Qed.
-Print Assumptions C19_outer_shrink_undetected.
-
-(* REFUTED outside the API: a non-LIFO leave takes the "len = 0" branch and the next
-   allocation is the frame header itself (offset 0 < sizeof(struct arena_frame)) *)
-Theorem C19_nonlifo_leave_hits_header : exists ops,
-  run_from_alloc (cfg_of poison_normal 4096) ops =
-    Some ([EUnit; EPtr (Some (O, 32)); EUnit; EPtr (Some (O, 48)); ELeave [] false; ELeave [] true;
-           EUnit; EPtr (Some (O, 0))], Done).
-Proof.
-  exact (ex_intro _ [Enter; Malloc 0 16; Enter; Malloc 0 16; LeaveAt 1; LeaveAt 0; Enter; Malloc 0 16] eq_refl).
-Qed.
-Print Assumptions C19_nonlifo_leave_hits_header.
-
-(* the repaired code: growing a block of the outer scope while a nested scope is open traps (D11) *)
+(* ---- examples on the source as it is now ------------------------------------------------------------------------------------------------- *)
+(* D11 (08bdded): growing a block of the outer scope while a nested scope is open traps *)
 Theorem C19_outer_grow_traps_example :
   run_from_alloc (cfg_of poison_normal 4096) [Enter; Malloc 0 16; Enter; Realloc 1 (Some (O, 32)) 16 64] =
     Some ([EUnit; EPtr (Some (O, 32)); EUnit], Trapped).
 Proof. exact eq_refl. Qed.
 Print Assumptions C19_outer_grow_traps_example.
+
+(* 4eb1227: shrinking a block of the inner scope through the outer scope traps as well *)
+Theorem C19_outer_shrink_traps_example :
+  run_from_alloc (cfg_of poison_normal 4096) [Enter; Enter; Malloc 0 16; Realloc 1 (Some (O, 32)) 16 8; LeaveAt 0; Malloc 0 16] =
+    Some ([EUnit; EUnit; EPtr (Some (O, 32))], Trapped).
+Proof. exact eq_refl. Qed.
+Print Assumptions C19_outer_shrink_traps_example.
 
 (* non-vacuity: two scopes, a second frame, reallocation in place and by copying,
    cleanups in both scopes, contents carried along, arena_free at the end *)
